@@ -980,6 +980,26 @@ def run(chk):
     chk.extra["t_model_s"] = round(time.time() - chk.t0, 1)
     chk.extra["model_out_of_fuel"] = sum(1 for m in model_outs if m[:2] == [1, 11])
     chk.crosscheck_vm(cases, model_outs, k=120 if chk.tier == "quick" else 600)
+    # finding F02b (alias_first_token): the generators keep out of the class (a definition that starts with the name of an
+    # alias defined later); its recorded witness is replayed on every run
+    chk.evaluations += 1
+    witness = ("DEFINE y AS q and a DEFINE q AS b RULE r1 CATEGORY cat CUTOFF 1 NEIGHBOURHOOD 1 CONDITIONS c or y")
+    try:
+        from antismash.common.hmm_rule_parser import rule_parser as _rp
+        _rp.Parser(witness, {"a", "b", "c"}, {"cat"})
+        reproduced = False          # accepted: textual substitution gives `c or b and a`
+    except ValueError as exc:
+        reproduced = "without signatures: q" in str(exc)
+    except Exception:  # pylint: disable=broad-except
+        reproduced = False
+    if reproduced:
+        if "alias_first_token" in known:
+            chk.known(known["alias_first_token"]["what_fails"])
+        else:
+            chk.violation("counterexample", "class alias_first_token (not listed as known): an alias whose definition starts "
+                          "with the name of an alias defined later is not expanded as textual substitution",
+                          {"theorem_or_correspondence": "C02 'DEFINE aliases behave as textual substitution', witness",
+                           "input": witness})
     return chk.finish(RULE)
 
 
